@@ -3,6 +3,9 @@ package main
 import (
 	"math/rand/v2"
 	"strings"
+	"time"
+
+	"gitee.com/xuesongtao/protoc-go-valid/valid"
 )
 
 // C05: every format / content rule on members of its language, single-rune edits of members
@@ -172,5 +175,69 @@ func init() {
 			"non-trivial: the rule was violated; distinct by request",
 		Size: map[string]int{"quick": 60000, "thorough": 1200000},
 		Gen:  func(r *rand.Rand, tier string) Case { return langCase(r) },
+	})
+}
+
+// timeparse: the hand transcription of time.Parse + Format back (lean/PGV/Model/TimeParse.lean) against the standard
+// library itself, on layouts far beyond those GetTimeFmt builds.  No code of the repository runs here: the stream
+// validates a piece of the trusted base (the model of the standard library the date theorems are about).
+var tpLayoutPieces = []string{"2006", "01", "02", "15", "04", "05", "2006", "01", "02", "15", "04", "05",
+	"-", "/", " ", "  ", ":", ".", ",", "_", "+", "#", "T", "年", "Jan", "Mon", "MST", "1", "2", "3", "4", "5", "PM", "pm", "-07", "-0700", "Z07", ".000", ".999", ",000",
+	"x", "06", "03", "002", "_2", "__2", "0", "9", ".0", ".00x", "J", "M", "Z", "-", "--", "-0", "20", "200", "2006"}
+
+func timeparseCase(r *rand.Rand) Case {
+	var layout string
+	switch r.IntN(4) {
+	case 0:
+		layout = valid.GetTimeFmt(pick(r, []int8{valid.YearFmt, valid.YearFmt | valid.MonthFmt, valid.DateFmt, valid.DateTimeFmt, valid.DateFmt | valid.HourFmt, valid.HourFmt | valid.MinFmt | valid.SecFmt}), pick(r, dateSeps), pick(r, dateSeps), pick(r, dateSeps))
+	default:
+		layout = randFrom(r, tpLayoutPieces, 0, 8)
+	}
+	tm := time.Date(pick(r, []int{0, 1, 99, 1996, 2000, 2024, 2023, 1900, 9999}), time.Month(1+r.IntN(12)), 1+r.IntN(31), r.IntN(24), r.IntN(60), r.IntN(60), 0, time.UTC)
+	v := tm.Format(layout)
+	if chance(r, 0.1) {
+		v = pick(r, []string{"2023-02-29", "2024-02-29", "1900-02-29", "2000-02-29", "2024-04-31", "2024-13-01", "2024-00-10", "2024-01-00", "2024-01-32", "2024-01-01 24:00:00", "2024-01-01 23:60:00", "2024-01-01 23:59:60"})
+	}
+	for k := r.IntN(3); k > 0; k-- {
+		if len(v) == 0 {
+			break
+		}
+		i := r.IntN(len(v))
+		switch r.IntN(7) {
+		case 0:
+			v = v[:i] + v[i+1:]
+		case 1:
+			v = v[:i] + pick(r, []string{"0", "1", "9", " ", "-", ":", ".", ",", "x", "+"}) + v[i:]
+		case 2:
+			v = v[:i] + pick(r, []string{"0", "3", "9", " ", "-"}) + v[i+1:]
+		case 3:
+			v += pick(r, []string{".5", ",25", ".", " ", "0", ".123456789012"})
+		case 4:
+			v = strings.Replace(v, " ", "  ", 1)
+		case 5:
+			v = strings.Replace(v, " 0", " ", 1)
+		case 6:
+			v = strings.Replace(v, "  ", " ", 1)
+		}
+	}
+	ok := false
+	func() {
+		defer func() { _ = recover() }()
+		t, err := time.Parse(layout, v)
+		ok = err == nil && t.Format(layout) == v
+	}()
+	impl := "f"
+	if ok {
+		impl = "t"
+	}
+	return Case{Op: "timeparse " + X(layout) + " " + X(v), Impl: impl, Tags: []string{"tp:" + impl}, Nontrivial: ok}
+}
+
+func init() {
+	register(&Stream{
+		Name: "timeparse",
+		Rule: "layouts made of 0-8 pieces (the six numeric elements, separators of every kind, every other layout keyword and near-keywords) or built by GetTimeFmt; values: a random instant formatted with the layout, impossible dates, then 0-2 edits (drop / insert / replace a byte, a fraction, doubled or halved blanks, one-digit hour). The standard library's time.Parse + Format back is compared with the transcription; layouts with an element the transcription does not know are counted out of scope. non-trivial: accepted; distinct by request",
+		Size: map[string]int{"quick": 60000, "thorough": 1500000},
+		Gen:  func(r *rand.Rand, tier string) Case { return timeparseCase(r) },
 	})
 }
